@@ -555,6 +555,33 @@ impl<'a> Ev<'a> {
     }
 
     fn eval_call(&mut self, c: &syn::ExprCall) -> R<Val> {
+        if let Expr::Path(p) = &*c.func {
+            if let Some(q) = &p.qself {
+                // <T as Trait>::method(args) on a type of the generated module
+                if let Some(ty) = self.idx.resolve_type(&q.ty, &self.module, self.self_ty.as_ref()) {
+                    let segs = path_segs(&p.path);
+                    let trait_name = if q.position > 0 { Some(segs[q.position - 1].clone()) } else { None };
+                    let name = segs.last().unwrap().clone();
+                    let cands = self.idx.find_method(&ty, &name, trait_name.as_deref());
+                    if let Some((info, f)) = cands.first() {
+                        let args = self.eval_args(&c.args)?;
+                        let has_recv = matches!(f.sig.inputs.first(), Some(syn::FnArg::Receiver(_)));
+                        if has_recv {
+                            let mut it = args.into_iter();
+                            let recv = it.next();
+                            return self.call_fn(info, f, recv, it.collect());
+                        }
+                        return self.call_fn(info, f, None, args);
+                    }
+                    if name == "default" && c.args.is_empty() {
+                        if let Some(ItemKind::Enum { default: Some(d), .. }) = self.idx.items.get(&ty) {
+                            // #[derive(Default)] with a #[default] variant
+                            return Ok(Val::Loc(LocT::Const(d.clone())));
+                        }
+                    }
+                }
+            }
+        }
         let fpath = match &*c.func {
             Expr::Path(p) if p.qself.is_none() => p,
             Expr::Paren(_) | Expr::Path(_) | Expr::Field(_) | Expr::Call(_) => {
